@@ -80,7 +80,7 @@ pub fn bodies(tier: &str) -> Vec<crate::e3::BodySpec> {
 pub fn run(tier: &str) -> i32 {
     let t0 = Instant::now();
     let mut o = Outcome::new("C04", tier, "model_checking");
-    let ps = passes(tier);
+    let ps = with_dedup(passes(tier), tier);
     let wit = run_passes(&mut o, &ps);
     o.cov("rule", json!("every enabled program (writes, batches, tx commits, clear, ingestion incl. over existing keys, rotation, each queued worker message, journal rotation, major compaction, up to 3 reopen) up to the per-pass depth is executed on the real database; only states reached through >=1 reopen are judged: all read methods of every keyspace == BTreeMap model (which the same program's prefix before the close was shown equal to), keyspace set equal"));
     o.assumptions = vec![
